@@ -141,10 +141,16 @@ class SdvValidatorFromDdvValidator(SdvValidator):
         self._hds = None
 
     def validate_pre_sds_if_applicable(self, environment: PathResolvingEnvironmentPreSds) -> Optional[TextRenderer]:
+        self._hds = environment.hds
         return self._get_validator(environment.symbols).validate_pre_sds_if_applicable(environment.hds)
 
     def validate_post_sds_if_applicable(self, environment: PathResolvingEnvironmentPostSds) -> Optional[TextRenderer]:
-        tcds = TestCaseDs(self._hds, environment.sds)
+        tcds = (
+            environment.tcds
+            if isinstance(environment, PathResolvingEnvironmentPreOrPostSds)
+            else
+            TestCaseDs(self._hds, environment.sds)
+        )
         return self._get_validator(environment.symbols).validate_post_sds_if_applicable(tcds)
 
     def _get_validator(self, symbols: SymbolTable) -> DdvValidator:
